@@ -477,4 +477,48 @@ def r7(F, R):
     R.floor(2)
 
 
-RULES = [("R1", r1, None), ("R2", r2, None), ("R3", r3, None), ("R4", r4, None), ("R5", r5, None), ("R6", r6, None), ("R7", r7, None)]
+def r8(F, R):
+    """What the runner emits is what the writers see: in `Cucumber::filter_run` the stream returned by `Runner::run` is handed — itself, no
+    skipping / limiting / filtering adaptor in between — to a loop that is left only when the stream ends and passes EVERY item to
+    `Writer::handle_event` (the item itself), and the writer that received them is the one returned (whose Stats give the verdict)."""
+    from . import c15
+    co = c15.filter_run_co(F)
+    run = [(s_, t) for s_, t in co.calls(lambda t: (op_fn(t["func"]) or {}).get("trait") == "runner::Runner")]
+    nxt = [(s_, t) for s_, t in co.calls(lambda t: callee_is(t, r"StreamExt::next$"))]
+    he = [(s_, t) for s_, t in co.calls(lambda t: (op_fn(t["func"]) or {}).get("trait") == "writer::Writer" and callee_is(t, r"::handle_event$"))]
+    if len(run) != 1 or len(he) != 1:
+        raise Unverifiable(f"filter_run: Runner::run x{len(run)}, Writer::handle_event x{len(he)}")
+    s_run, t_run = run[0]
+    s_he, t_he = he[0]
+    # the stream polled by the loop is the runner's
+    pump = []
+    for s_, t in nxt:
+        sl = A.slice_back(co, [t["args"][0]], stop_calls=[r"Future::poll$", r"runner::Runner(<.*>)?>?::run$", r"Runner::run$"])
+        if s_run in sl.sites:
+            adaptors = sorted({callee_path(ct).rsplit("::", 1)[-1] for _, ct in sl.calls if (op_fn(ct["func"]) or {}).get("trait", "").endswith(("StreamExt", "Stream", "TryStreamExt"))
+                               and not callee_is(ct, r"StreamExt::next$")})
+            pump.append((s_, t, adaptors))
+    ok = len(pump) == 1 and not pump[0][2]
+    R.check(ok, "pump/runner-stream-unadapted", s_run, "the loop polls runner.run(..) itself", f"the event loop of filter_run does not poll the runner's stream as it is (adaptors: {[p[2] for p in pump]})")
+    if len(pump) == 1:
+        s_n, t_n, _ = pump[0]
+        aw = [a for a in A.awaits(co) if a.src_op is not None and s_n in A.slice_back(co, [a.src_op]).sites]
+        # the item handed to the writer is what next() yielded
+        ev_sl = A.slice_back(co, [t_he["args"][1]])
+        from_next = bool(aw) and any(a.poll_site in ev_sl.sites for a in aw) or s_n in A.slice_back(co, [t_he["args"][1]], stop_calls=[]).sites
+        R.check(from_next, "pump/item-forwarded", s_he, "writer.handle_event(ev, ..) with the stream's item", "the writer is not handed the item the runner's stream yielded")
+        # every turn forwards: the loop around next() contains handle_event, is left only on None, and no way round skips the forward
+        loop = A.natural_loop(co, s_n.bb)
+        R.check(s_he.bb in loop and co.in_cycle(s_n), "pump/every-item", s_he, "every item of the stream is forwarded", "Writer::handle_event is not called inside the loop over the runner's stream")
+        guards = [g for g in A.guards_of(co, s_he) if g.bb in loop]
+        extra = []
+        for g in guards:
+            d = g.cond_def()
+            if d and d[0] == "discr" and g.variants() in ({"Some"}, {"Ready"}):
+                continue
+            extra.append(A.describe_operand(co, g.term["discr"]))
+        R.check(not extra, "pump/unconditional", s_he, "forwarding depends on nothing but the stream yielding an item", f"an event is forwarded to the writer only under {extra}: the other events are lost")
+    R.floor(4)
+
+
+RULES = [("R1", r1, None), ("R2", r2, None), ("R3", r3, None), ("R4", r4, None), ("R5", r5, None), ("R6", r6, None), ("R7", r7, None), ("R8", r8, None)]
